@@ -34,6 +34,8 @@ def check(repo, col, tier):
     from . import c06
     col.rule("R-C07-padding", "over-long checkpoint layouts extend the inputs after the samples", 1)
     c06.checkpoint_padding(repo, col, "R-C07-padding")
+    col.rule("R-C07-time", "every call steps through exactly the inputs of its own time window", 6)
+    c08._time(repo, col, "R-C07-time")
     col.rule("R-C07-scan", "the checkpointed (nested) scan threads the carry through every block", 6)
     c06._scan(repo, col, "R-C07-scan")
 
